@@ -311,7 +311,7 @@ Proof.
     apply bank_pay_only, bank_only_fields in H. destruct H as (Ht2 & Hm2 & _).
     apply TSsame; simpl in *; congruence.
   - (* SetParams *)
-    unfold do_set_params in H. inv_if H. inversion H. apply TSsame; reflexivity.
+    unfold do_set_params in H. inv_if H. inv_if H. inversion H. apply TSsame; reflexivity.
   - (* EvmMode *)
     inversion H. apply TSsame; reflexivity.
   - (* HookToNative *)
@@ -631,7 +631,7 @@ Proof.
     + apply cap_frame with s; [simpl; congruence| |assumption].
       intros d. rewrite HS. pose proof (ind_nonneg (eqb d denom) amt ltac:(lia)). lia.
   - (* SetParams *)
-    unfold do_set_params in H. inv_if H. inversion H. split; assumption.
+    unfold do_set_params in H. inv_if H. inv_if H. inversion H. split; assumption.
   - (* EvmMode *)
     inversion H. split; assumption.
   - (* UpgradeErc20 *)
@@ -748,7 +748,7 @@ Proof.
   - unfold do_from_erc20 in E. inv_if E. destruct (token_by_minunit s denom) as [t|]; [|discriminate].
     inv_if E. inv_if E. inv_if E. cbv zeta in E. inv_bind E.
     rewrite (burned_of_bank_only _ _ d (bank_pay_only _ _ _ _ _ E)), (burned_of_bank_only _ _ d (bank_mint_only _ _ _ _ E4)). reflexivity.
-  - unfold do_set_params in E. inv_if E. inversion E. reflexivity.
+  - unfold do_set_params in E. inv_if E. inv_if E. inversion E. reflexivity.
   - inversion E. reflexivity.
   - apply do_hook_inv in E. destruct E as (sym0 & t & s2 & _ & _ & _ & _ & _ & _ & Hm & Hp).
     rewrite (burned_of_bank_only _ _ d (bank_pay_only _ _ _ _ _ Hp)), (burned_of_bank_only _ _ d (bank_mint_only _ _ _ _ Hm)). reflexivity.
